@@ -125,6 +125,8 @@ class Sched:
         self.preempt_plan = None  # set of line-event indices
         self.line_events = 0
         self.preempt_sites = []
+        self.preempt_targets = None  # co_name -> set of occurrence numbers
+        self.site_counts = {}
         self.line_log = []
         self.poplog = None
         self.hooks_at_step = {}  # step -> [callable]  (fault triggers)
